@@ -326,6 +326,12 @@ func (en *DefaultEngine) runFirst(ctx context.Context) (bool, error) {
 	if en.first == nil {
 		return true, nil
 	}
+	if en.st.MatchFlag(state.FLAG_TERMINATE, true) {
+		// the session is blocked: nothing runs, nothing is output and the flag stays set
+		logg.InfoCtxf(ctx, "terminate set, skipping pre-VM check", "state", en.st)
+		en.execd = true
+		return false, nil
+	}
 	logg.DebugCtxf(ctx, "start pre-VM check")
 	en.ca.Push()
 	rs := resource.NewMenuResource()
